@@ -347,7 +347,7 @@ class Ctx:
             print(f"KNOWN-FINDING: property={self.pid} {kid}: {v['desc']} (seen {v['n']}x; e.g. {v['first'][:160]})")
         rc = 0
         for i, (ks, v) in enumerate(distinct.items()):
-            if i >= 20:
+            if i >= int(os.environ.get("VERIF_MAXVIOL", "20")):
                 break
             rdir = os.path.join(VERIF, "replays", self.pid)
             os.makedirs(rdir, exist_ok=True)
